@@ -49,7 +49,7 @@ CLAIMS = {
  "C19": ("5 (C19)", "work() decides 'BZh1..9' exactly, for every 0..6-byte input under every read() fragmentation, and passes the sniffed bytes through once; the real copy callbacks + reader/writer bodies (run sequentially) copy every byte in order and signal completion exactly when eof and all buffers are back.",
          "Buffers of 1..2 bytes instead of 64 KiB, at most two buffers in flight, reader-then-writer order only (no real interleaving)."),
  "C20": ("5 (C20)", "assign_codes() -> sort_alphabet() -> package_merge() on a symbolic frequency vector: the written lengths are within 1..L, Kraft-complete, and NO complete prefix code whose longest code is no longer than the chosen longest code is cheaper "
-         "(the competitor is a second symbolic length vector, so one query covers every competitor). Scaled code-length limit L=3 (alphabets 3 and 4; 5 in the thorough tier) and L=4 (alphabets 4, 5; thorough); the limit is active at these sizes.",
+         "(the competitor is a second symbolic length vector, so one query covers every competitor). Scaled code-length limit L=3 (alphabets 3 and 4; 5 in the thorough tier) and L=4 (alphabet 4; thorough); the limit is active at these sizes.",
          "SCALED: production limit 20 and alphabets above 5 symbols are out of reach (27 GB / no verdict); make_code_lengths() (clustering trees), the assignment of groups to tables and the 'no code longer than 20 bits' clause at production size are not covered. "
          "A defect that needs deep package nesting (depth >= 16) is not detectable at these bounds."),
  "C21": ("5 (C21)", "xread()/xwrite(): a failing call never returns to the caller and is reported with its errno; filter runs of the real main()/signals.c: message printed iff errno not EPIPE/EFBIG, exit 1 or death by the promoted SIGPIPE/SIGXFSZ, never exit 0, main thread always woken (no hang in halt()).",
